@@ -12,3 +12,15 @@ def c11_symbolic_sqrt_family(w):
             and w.get('exc_type') == 'TypeError'
             and str(w.get('exc_where') or '').endswith(':power_supply')
             and 'sqrtfam' in (prog.get('feats') or []))
+
+
+def c11_symbolic_sqrt_of_zero(w):
+    """register(symbolic=True): the argument of sqrt()/norm()/normalized() simplifies to identically zero; codegen_sqrt then
+    divides by the zero root while generating and prints sympy nan/zoo into the source: NameError at call time."""
+    prog = w.get('program') or {}
+    out = str(w.get('registered_outcome') or '')
+    return (w.get('kind') == 'registered function raises where the plain function returns'
+            and w.get('mode') == 'symbolic'
+            and w.get('exc_type') == 'NameError'
+            and ("name 'nan'" in out or "name 'zoo'" in out)
+            and 'sqrtfam' in (prog.get('feats') or []))
